@@ -421,12 +421,38 @@ def g_src(r, fault_rate=0.0, nbytes_hint=200):
 IO_EXC = (OSError, )
 
 
+def existing_media(deck):
+    """Bytes of the Pillow-readable images the start deck already holds (slides, layouts, masters, notes master), in member order."""
+    import io
+    import zipfile
+    from PIL import Image
+    out = []
+    try:
+        z = zipfile.ZipFile(io.BytesIO(deck.start_image))
+    except Exception:  # noqa: BLE001
+        return out
+    for n in sorted(z.namelist()):
+        if n.startswith("ppt/media/"):
+            b = z.read(n)
+            try:
+                if Image.open(io.BytesIO(b)).format in ("PNG", "JPEG", "GIF", "BMP", "TIFF"):
+                    out.append(b)
+            except Exception:  # noqa: BLE001
+                continue
+    return out
+
+
 @op("add_picture", "media", creates=True, weight=2.0, expects=())
 @gen(lambda r: dict(g_add(r), img=gens.gen_image_recipe(r), src=g_src(r),
-                    size=r.choice(["none", "none", "w", "h", "both"])))
+                    size=r.choice(["none", "none", "w", "h", "both"]), existing=r.choice([None] * 8 + [0, 1])))
 def _add_picture(w, deck, a):
     sl, shapes = target_shapes(w, deck, a)
     data = gens.image_bytes(a["img"])
+    if a.get("existing") is not None:
+        med = existing_media(deck)
+        if med:
+            data = med[a["existing"] % len(med)]      # the same bytes as an image the deck already holds somewhere
+            w.stats.hit("added_bytes_the_deck_already_holds")
     f, tmp = _source_arg(w, data, a, fname="pic.img")
     try:
         cx = a["cx"] or 1 if a["size"] in ("w", "both") else None
